@@ -275,6 +275,10 @@ var zzLitTemplates = []string{
 	"u = \"-2\"; return 7001 - 7002;",
 	"u = \"70000\"; t(u); return 7001 + 7002;",
 	"u = [\"65600\", 65600.0, /65600/]; return (7001 + 7002) == 65600;",
+	// code with constants of its own that the optimizer removes, then ++ / -- on variables named afterwards
+	"if (1 == 2) { t(\"dbg\", 7003, \"more\"); } x = 7001; x++; y = 7002; y--; t(x); return x + y;",
+	"while (false) { t(\"never\", 7003); } function f(p) { p++; q = 7001; q--; return p + q; } return f(7002);",
+	"if (false) { dead = \"d\"; dead++; } x = 7001; if (x) { x++; } else { x--; } z = 7002; z++; return x + z;",
 }
 
 // ZZ_C03_Literals: the same programs with integer literals that are
